@@ -52,6 +52,16 @@ def world():
             else:
                 leaf = LeafRelation(e, cols, iteration.RowSequence(build.rows([{"a": 1}])), name="U", min_rows=1, max_rows=1)
             unit[name] = leaf.with_only_columns(frozenset())
+        # the ordinary source S {a, b}
+        srows = [{"a": 0, "b": 0}, {"a": 1, "b": 1}]
+        for name, e in engs.items():
+            cols = build.tags(("a", "b"))
+            if name == "sql":
+                table = sqlalchemy.table("S", sqlalchemy.column("a"), sqlalchemy.column("b"))
+                ident[("S", name)] = e.make_leaf(cols, sql.Payload(table, columns_available={build.tag(c): table.c[c] for c in ("a", "b")}),
+                                                 name="S", min_rows=2, max_rows=2)
+            else:
+                ident[("S", name)] = LeafRelation(e, cols, iteration.RowSequence(build.rows(srows)), name="S", min_rows=2, max_rows=2)
         _st["w"] = (engs, ident, {"F": fixed, "U": unit}, rows)
     return _st["w"]
 
@@ -60,14 +70,30 @@ def do_join(c, rel, fixed, engs):
     from lsst.daf.relation import Join
 
     pref = None if c["pref"] == "none" else engs[c["pref"]]
-    return Join().partial(fixed, is_lhs=bool(c["lhs"])).apply(rel, preferred_engine=pref, backtrack=bool(c["backtrack"]), transfer=bool(c["transfer"]))
+    return Join().partial(fixed, is_lhs=bool(c["lhs"])).apply(rel, preferred_engine=pref, backtrack=bool(c["backtrack"]), transfer=bool(c["transfer"]),
+                                                              require_preferred_engine=bool(c.get("require", False)))
+
+
+def ops_outside(rel, engine) -> int:
+    """Operation nodes of a real tree that live outside `engine` (markers are walked through their target)."""
+    from lsst.daf.relation import BinaryOperationRelation, MarkerRelation, UnaryOperationRelation
+
+    match rel:
+        case UnaryOperationRelation(target=target):
+            return ops_outside(target, engine) + (1 if rel.engine is not engine else 0)
+        case BinaryOperationRelation(lhs=lhs, rhs=rhs):
+            return ops_outside(lhs, engine) + ops_outside(rhs, engine) + (1 if rel.engine is not engine else 0)
+        case MarkerRelation(target=target):
+            return ops_outside(target, engine)
+    return 0
 
 
 def replay_state(st, out):
     engs, ident, fixed, rows = world()
-    case = {k: st[k] for k in ("ei", "ef", "fk", "hist")}
-    rel = ident[st["ei"]]
+    case = {k: st[k] for k in ("ei", "ef", "fk", "src", "hist")}
+    rel = ident[st["ei"]] if st["src"] == "I" else ident[("S", st["ei"])]
     F = fixed[st["fk"]][st["ef"]]
+    env = {"I": [[]], "F": rows, "U": [{"a": 1}], "S": [{"a": 0, "b": 0}, {"a": 1, "b": 1}]}
     try:
         for c in st["hist"]:
             if c["f"] == "xfer":
@@ -77,7 +103,17 @@ def replay_state(st, out):
             elif c["f"] == "mat":
                 rel = rel.materialized(c["name"])
             else:
+                before = rel
                 rel = do_join(c, rel, F, engs)
+                if c.get("require") and not c["transfer"] and c["pref"] != "none":
+                    # C03: with require_preferred_engine the call adds no operation outside the preferred engine
+                    pe = engs[c["pref"]]
+                    if ops_outside(rel, pe) > ops_outside(before, pe) + ops_outside(F, pe):
+                        if st.get("kf31") and c["pref"] != st["ef"]:
+                            out["known"]["F31"] = out["known"].get("F31", 0) + 1
+                        else:
+                            out["violations"].append({"properties": ["C03"], "family": "idjoin", "case": case,
+                                                      "what": "require_preferred_engine=True, yet the call added an operation outside the preferred engine"})
     except Exception as exc:  # noqa: BLE001
         out["violations"].append({"properties": ["C03", "C14"], "family": "idjoin", "case": case,
                                   "what": f"a request the specification accepts raised {type(exc).__name__}: {str(exc)[:200]}"})
@@ -91,7 +127,7 @@ def replay_state(st, out):
         out["n_drift"] += 1
         if len(out["drift"]) < 3:
             out["drift"].append({"what": "tree differs from the model's", "case": case, "real": canon_tree(real), "model": canon_tree(st["tree"])})
-    out["events"].append({"tree": real, "env": {"I": [[]], "F": rows, "U": [{"a": 1}]}, "rows": st["rows"], "bag": True,
+    out["events"].append({"tree": real, "env": env, "rows": st["rows"], "bag": True,
                           "checks": ["wf", "denbag"], "case": case})
     # requests the model refuses here
     for r in st["refused"]:
@@ -106,12 +142,12 @@ def replay_state(st, out):
             continue
         # accepted by the code, refused by the model: judged on its merits by TLC (drift unless ill-formed / wrong rows)
         out["n_drift"] += 1
-        out["events"].append({"tree": full_tree(got), "env": {"I": [[]], "F": rows, "U": [{"a": 1}]}, "rows": (rows if st["fk"] == "F" else [[]]), "bag": True,
-                              "checks": ["wf", "denbag"], "case": dict(case, call=c, note="accepted by the code, refused by the model")})
+        out["events"].append({"tree": full_tree(got), "env": env, "rows": [], "bag": True,
+                              "checks": ["wf"], "case": dict(case, call=c, note="accepted by the code, refused by the model")})
 
 
 def worker(lines, ctx):
-    out = {"n": 0, "nontrivial": 0, "violations": [], "counters": {}, "samples": [], "events": [], "n_drift": 0, "drift": []}
+    out = {"n": 0, "nontrivial": 0, "violations": [], "counters": {}, "samples": [], "events": [], "n_drift": 0, "drift": [], "known": {}}
     for ln in lines:
         st = json.loads(ln)
         out["n"] += 1
@@ -146,6 +182,12 @@ def run(tier: str, seed: int) -> list[Part]:
         raise MachineryError(f"companion IdJoinKF28 no longer violates WF (got {kf.violated})")
     p = Part(name="idjoin:F28-companion", cfg="IdJoinKF28.cfg", states=max(kf.distinct, 1), transitions=max(kf.generated, 1))
     p.notes.append("TLC counterexample re-derives F28 from the pinned-commit rule: backtracking re-wraps the fixed operand a join-identity short cut handed back in a transfer to its own engine")
+    parts.append(p)
+    kf = run_tlc("MC_IdJoin.tla", "IdJoinKF31.cfg", expect_violation=True)
+    if kf.violated != "KF31Gone":
+        raise MachineryError(f"companion IdJoinKF31 no longer violates KF31Gone (got {kf.violated})")
+    p = Part(name="idjoin:F31-companion", cfg="IdJoinKF31.cfg", states=max(kf.distinct, 1), transitions=max(kf.generated, 1))
+    p.notes.append("TLC counterexample shows the excluded class (open finding F31) still violates: a partial join requested with a required preferred engine other than the fixed operand's lands outside it")
     parts.append(p)
     kf = run_tlc("MC_IdJoin.tla", "IdJoinKF30.cfg", expect_violation=True)
     if kf.violated != "WF":
